@@ -4,6 +4,7 @@
 -/
 import Valida.Rule
 import ValidaProofs.Lemmas.Basic
+import ValidaProofs.Lemmas.DataGuard
 import ValidaProofs.Lemmas.C02Tree
 namespace ValidaProofs.C05L
 open Valida ValidaGen
@@ -238,7 +239,7 @@ theorem ruleTestOn_verdict (r : RuleM) (doc : PyVal) (t : RuleTestR) (sub : List
   have hd : DataV.ofPy (.list (sub.map (fun vp => PyVal.tuple [vp.1, vp.2]))) = .ok (pairD sub) := by
     cases sub with
     | nil => exact absurd rfl hne
-    | cons x xs => simp [DataV.ofPy, pairD]
+    | cons x xs => simp [DataV.ofPy_list, pairD]
   unfold ruleTestOn at h
   simp only [bind, Except.bind, pure, Except.pure, hsel, hd, filterAux_pairs _ sub hv] at h
   split at h
